@@ -96,6 +96,55 @@ def make_run(orth, locs, twins=True):
     return run
 
 
+def run_xy_form(ctx):
+    """curvature_type 'curl(b/B) with x-y derivatives' (orthogonal grids): the standard
+    contravariant curl in the field-aligned coordinates, (curl A)^i = eps^ijk d_j A_k / J with
+    J = hy/Bp (signed), A = b/B: A_x = 0 (orthogonal), A_y = Bp hy/B^2 ... expressed through the
+    quantities the code differentiates; DDX / DDY are stubs returning symbolic derivative
+    values (their stencils: C06)."""
+    from hypnotoad.core.mesh import MeshRegion
+
+    MLA = mk.mla_cls()
+    r = mk.skeleton_region(True, curvature_type="curl(b/B) with x-y derivatives")
+    locs = ("centre",)
+    for n in ("Rxy", "Bpxy", "Btxy", "Bxy", "hy"):
+        setattr(r, n, mk.sym_mla(ctx, n, locs))
+    r.bpsign = ctx.real("bpsign")
+    ctx.assume(Or(r.bpsign == 1, r.bpsign == -1))
+    R, Bp, Bt, B, hy = (mk.at(getattr(r, n), "centre") for n in ("Rxy", "Bpxy", "Btxy", "Bxy", "hy"))
+    ctx.assume(And(R > 0, hy > 0, r.bpsign * Bp > 0, B > 0, B * B == Bp * Bp + Bt * Bt))
+    r.I = MLA(1, 1).zero()
+    d = {}
+
+    def stub(kind):
+        def f(expr):
+            v = ctx.real("%s(%s)" % (kind, expr))
+            d[(kind, expr)] = v
+            m = MLA(1, 1)
+            m.centre[...] = v
+            return m
+
+        return f
+
+    r.DDX, r.DDY = stub("DDX"), stub("DDY")
+    MeshRegion.calc_curvature(r)
+    G = lambda n: mk.at(getattr(r, n), "centre")
+    with spec_mode():
+        J = hy / Bp
+        dyB = d[("DDY", "#Bxy")]
+        # covariant components of b/B in (x,y,z): A_y = hy*Bp/B^2 * (hy/... ) -- only the
+        # derivatives the code takes are needed:
+        #   (curl A)^x = (1/J) d_y A_z ,  A_z = Bt R / B^2 ,  Bt R = fpol(psi) is constant along y
+        want_x = (1 / J) * (-2 * Bt * R / (B * B * B)) * dyB
+        #   (curl A)^y = -(1/J) d_x A_z
+        want_y = -(1 / J) * d[("DDX", "#Btxy*#Rxy/#Bxy**2")]
+        ctx.oblige(G("curl_bOverB_x") == want_x, "x-y form: curl^x = (1/J) d_y(Bt R/B^2), J = hy/Bp signed")
+        ctx.oblige(G("curl_bOverB_y") == want_y, "x-y form: curl^y = -(1/J) d_x(Bt R/B^2)")
+        for c in "xyz":
+            ctx.oblige(G("bxcv" + c) == B / 2 * G("curl_bOverB_" + c), "x-y form: bxcv%s = B/2 curl^%s" % (c, c))
+    return r
+
+
 def run_helpers(ctx):
     jf = eqkit.JetField(ctx, ("",))
     p = jf.points[""]
@@ -194,3 +243,44 @@ def build(S):
         S.contract("calc_curvature[orthogonal]", FN, make_run(True, mk.LOCS4), replay=replay(True), shape="1x1 per location, 4 locations")
         S.contract("calc_curvature[nonorthogonal]", FN, make_run(False, ("centre", "ylow")), replay=replay(False), shape="1x1 per location, centre+ylow")
         S.contract("calc_curvature[refusals]", FN, run_refuses, shape="-")
+        S.contract("calc_curvature[x-y form]", FN, run_xy_form, shape="one point, DDX/DDY stubbed")
+        from . import C18_dct
+
+        C18_dct.add(S)  # the DCT interpolant's second derivatives feed the curvature
+
+
+def post(S):
+    """Bounded: the two formulations agree on orthogonal grids to discretisation error."""
+    import time
+
+    import numpy as np
+
+    from bounded import gridbank as gb
+
+    t0 = time.time()
+    P = dict(fpol="profile", pressure=True)
+    o = dict(orthogonal=True, nx_core=10, nx_sol=10, ny_inner_divertor=8, ny_outer_divertor=8, ny_sol=24)
+    signs = (1.0, -1.0)
+    cfgs = []
+    for ps in signs:
+        cfgs += [gb.cfg("lsn", o, psi_sign=ps, label="lsn-fine(psi%+d)" % ps, **P), gb.cfg("lsn", dict(o, curvature_type="curl(b/B) with x-y derivatives"), psi_sign=ps, label="lsn-fine-xy(psi%+d)" % ps, **P)]
+    res = gb.generate_many(cfgs)
+    rows, bad = [], []
+    for k in range(0, len(cfgs), 2):
+        a, b = res[k], res[k + 1]
+        if not (a["ok"] and b["ok"]):
+            S.undecided.append("curvature comparison grid does not generate: %s" % (a.get("error") or b.get("error"))[:120])
+            continue
+        A, B = a["data"]["file"], b["data"]["file"]
+        for nm, lo, hi in (("curl_bOverB_x", 0.85, 1.3), ("curl_bOverB_y", 0.97, 1.03), ("curl_bOverB_z", 0.9, 1.1), ("bxcvx", 0.85, 1.3), ("bxcvy", 0.97, 1.03), ("bxcvz", 0.9, 1.1)):
+            x, y = np.array(A[nm])[3:-3, 6:-6], np.array(B[nm])[3:-3, 6:-6]
+            ok = np.abs(x) > 1e-3 * np.abs(x).max()
+            ratio = y[ok] / x[ok]
+            med = float(np.median(ratio))
+            frac_same_sign = float((ratio > 0).mean())
+            rows.append(dict(pair=cfgs[k]["label"], component=nm, median_ratio=med, same_sign_fraction=frac_same_sign, cells=int(ok.sum())))
+            if not (lo <= med <= hi) or frac_same_sign < 0.95:
+                bad.append(rows[-1])
+    S.bounded.append(dict(name="curvature formulations agree on orthogonal grids", evaluations=sum(r["cells"] for r in rows), distinct_nontrivial=max(2, len(rows)), rule="orthogonal LSN (nx 10+10, ny 8+24+8) generated with both curvature_type values; interior cells; median ratio x-y/R-Z within the discretisation band and >=95% equal signs; distinct = (grid pair, component)", bound="%d grids" % len(cfgs), samples=rows[:6], failures=bad, wall_s=round(time.time() - t0, 1)))  # fmt: skip
+    for b in bad:
+        S.static_vc("bounded:curvature-formulations[%s]" % b["pair"], FN, "x-y derivative form agrees with the R-Z form: %s" % b["component"], False, detail=repr(b), kind="bounded-grid", model=b)
